@@ -432,16 +432,15 @@ fn run(a: &vhcore::Args) -> i32 {
             }
             let want = &fresh_obs[&texts];
             if &o.obs[k] != want {
-                let dd: Vec<&String> = o.obs[k].diagnostics.symmetric_difference(&want.diagnostics).take(6).collect();
-                let td: Vec<&String> = o.obs[k].tokens.symmetric_difference(&want.tokens).take(6).collect();
-                let kind = if !dd.is_empty() { "diagnostics-differ" } else { "token-map-differs" };
                 let last = if k == 0 { "open".to_string() } else { EDITS[h[k - 1]].to_string() };
-                let before: Vec<&str> = h[..k.saturating_sub(1)].iter().map(|e| EDITS[*e]).collect();
-                rep.violation(
-                    &format!("C26|{kind}|after={last}|history={}", before.join(",")),
-                    &format!("after edits {:?} the incremental server differs from a fresh compile: diagnostics Δ {:?}; tokens Δ {:?}", h[..k].iter().map(|e| EDITS[*e]).collect::<Vec<_>>(), dd, td),
-                    json!({"history": h[..k].iter().map(|e| EDITS[*e]).collect::<Vec<_>>(), "edit_ids": &h[..k], "texts": texts, "incremental_only": o.obs[k].diagnostics.difference(&want.diagnostics).collect::<Vec<_>>(), "fresh_only": want.diagnostics.difference(&o.obs[k].diagnostics).collect::<Vec<_>>()}),
-                );
+                let edited_file = if k == 0 { "lib.sw" } else { file_name(steps[k - 1].0) };
+                for (key, what, detail) in classify(&o.obs[k], want, edited_file) {
+                    rep.violation(
+                        &key,
+                        &format!("after edits {:?} (last: {last}) the incremental server differs from a fresh compile: {what}", h[..k].iter().map(|e| EDITS[*e]).collect::<Vec<_>>()),
+                        json!({"history": h[..k].iter().map(|e| EDITS[*e]).collect::<Vec<_>>(), "edit_ids": &h[..k], "texts": texts, "difference": detail}),
+                    );
+                }
             }
         }
     }
@@ -497,4 +496,69 @@ fn replay(a: &vhcore::Args) -> i32 {
         println!("STILL VIOLATES");
         1
     }
+}
+
+/// Classify the differences between the incremental and the fresh observation: one class per
+/// failure shape (what kind of fact differs, on which side, in the edited file or another one),
+/// never per history.
+fn classify(inc: &Obs, fresh: &Obs, edited_file: &str) -> Vec<(String, String, serde_json::Value)> {
+    let mut out: Vec<(String, String, serde_json::Value)> = vec![];
+    let mut push = |key: String, what: String, detail: serde_json::Value| {
+        if !out.iter().any(|(k, _, _)| *k == key) {
+            out.push((key, what, detail));
+        }
+    };
+    let rel = |line: &str| if line.split_whitespace().nth(1).map(|f| f == edited_file).unwrap_or(false) || line.starts_with(edited_file) { "edited-file" } else { "other-file" };
+    // diagnostics: "<sev> <file> <range> <message>"
+    for d in inc.diagnostics.difference(&fresh.diagnostics) {
+        let sev = d.split_whitespace().next().unwrap_or("");
+        let msg: String = d.splitn(4, ' ').nth(3).unwrap_or("").chars().take(40).collect();
+        push(format!("C26|diagnostic-only-incremental|{sev}|{}|{}", rel(d), norm_digits(&msg)), format!("diagnostic only in the incremental server: {d}"), json!({"incremental_only": d}));
+    }
+    for d in fresh.diagnostics.difference(&inc.diagnostics) {
+        let sev = d.split_whitespace().next().unwrap_or("");
+        let msg: String = d.splitn(4, ' ').nth(3).unwrap_or("").chars().take(40).collect();
+        push(format!("C26|diagnostic-only-fresh|{sev}|{}|{}", rel(d), norm_digits(&msg)), format!("diagnostic only in the fresh server: {d}"), json!({"fresh_only": d}));
+    }
+    // tokens: "<file> <range> <name> <kind>"; pair up by (file, range, name)
+    let split = |t: &str| -> (String, String) {
+        let mut parts: Vec<&str> = t.rsplitn(2, ' ').collect();
+        parts.reverse();
+        (parts.first().unwrap_or(&"").to_string(), parts.get(1).unwrap_or(&"").to_string())
+    };
+    let inc_only: Vec<(String, String)> = inc.tokens.difference(&fresh.tokens).map(|t| split(t)).collect();
+    let fresh_only: Vec<(String, String)> = fresh.tokens.difference(&inc.tokens).map(|t| split(t)).collect();
+    for (loc, kind) in &inc_only {
+        let file = loc.split_whitespace().next().unwrap_or("");
+        let r = if file == edited_file { "edited-file" } else { "other-file" };
+        match fresh_only.iter().find(|(l, _)| l == loc) {
+            Some((_, fk)) => push(
+                format!("C26|token-kind-differs|incremental={kind}|fresh={fk}|{r}"),
+                format!("token `{loc}` has kind {kind} in the incremental server and {fk} in the fresh one"),
+                json!({"token": loc, "incremental_kind": kind, "fresh_kind": fk}),
+            ),
+            None => push(
+                format!("C26|token-only-incremental|{kind}|{r}"),
+                format!("token `{loc}` ({kind}) exists only in the incremental server"),
+                json!({"token": loc, "kind": kind}),
+            ),
+        }
+    }
+    for (loc, kind) in &fresh_only {
+        if inc_only.iter().any(|(l, _)| l == loc) {
+            continue;
+        }
+        let file = loc.split_whitespace().next().unwrap_or("");
+        let r = if file == edited_file { "edited-file" } else { "other-file" };
+        push(
+            format!("C26|token-only-fresh|{kind}|{r}"),
+            format!("token `{loc}` ({kind}) exists only in the fresh server"),
+            json!({"token": loc, "kind": kind}),
+        );
+    }
+    out
+}
+
+fn norm_digits(s: &str) -> String {
+    s.chars().map(|c| if c.is_ascii_digit() { '#' } else { c }).collect()
 }
